@@ -257,7 +257,93 @@ fn slices<B: Fld, E: ExtEl<B, N>, const N: usize>(st: &mut State, rng: &mut Rng,
     st.count(&format!("{nm}.slice_cases"));
 }
 
-fn drive<B: Fld, E: ExtEl<B, N>, const N: usize>(run: &Run, scale: u64) {
+
+/// conversions of extension elements: coefficient access, integer embeddings, canonical byte encodings (accepted
+/// exactly when every coefficient is canonical), wrong lengths, misaligned / ragged byte slices, Display
+fn conversions<B: Fld, E: ExtEl<B, N>, const N: usize>(st: &mut State, rng: &mut Rng, bnd: &[B])
+where
+    E: From<u8> + From<u16> + From<u32> + for<'a> TryFrom<&'a [u8]> + winter_utils::Randomizable + std::fmt::Display,
+{
+    let nm = name::<B, N>();
+    let bad = |what: &str, st: &mut State| st.violation(format!("{nm}:conversion:{what}"), J::s(what));
+    let a = operand::<B, E, N>(rng, bnd);
+    let c = a.e.coeffs();
+    // base_element(i) is the i-th coefficient; to_base_elements lists them
+    for i in 0..N {
+        if a.e.base_element(i).raw() != c[i].raw() {
+            bad("base_element", st);
+        }
+    }
+    // integer embeddings land in the constant coefficient
+    let v = rng.u32();
+    for (e, want) in [(E::from(v), v as u128 % B::FP.p), (E::from(v as u16), v as u16 as u128), (E::from(v as u8), v as u8 as u128)] {
+        let k = e.coeffs();
+        if k[0].res() != want || k[1..].iter().any(|x| x.res() != 0) || e != E::from(B::from_res(want)) {
+            bad("from-integer", st);
+        }
+    }
+    // canonical encodings: N little-endian coefficients, each below the modulus
+    let nb = B::ELEMENT_BYTES;
+    let mut ints: Vec<u128> = (0..N).map(|i| c[i].res()).collect();
+    let limit = if nb == 8 { u64::MAX as u128 } else { u128::MAX };
+    let tweak = rng.usize(N + 1);
+    if tweak < N {
+        // one coefficient at / above the modulus (or just below it)
+        ints[tweak] = *rng.pick(&[B::FP.p - 1, B::FP.p, B::FP.p + 1, limit, limit - 1]) & limit;
+    }
+    let mut bytes = Vec::new();
+    for x in &ints {
+        bytes.extend_from_slice(&x.to_le_bytes()[..nb]);
+    }
+    let canonical = ints.iter().all(|x| *x < B::FP.p);
+    let same = |e: &E| e.coeffs().iter().zip(&ints).all(|(k, w)| k.res() == *w);
+    match E::try_from(bytes.as_slice()) {
+        Ok(e) if canonical && same(&e) => {},
+        Err(_) if !canonical => {},
+        _ => bad("try_from_bytes:accept-set", st),
+    }
+    match E::from_random_bytes(&bytes) {
+        Some(e) if canonical && same(&e) => {},
+        None if !canonical => {},
+        _ => bad("from_random_bytes:accept-set", st),
+    }
+    match E::read_from_bytes(&bytes) {
+        Ok(e) if canonical && same(&e) => {},
+        Err(_) if !canonical => {},
+        _ => bad("read_from:accept-set", st),
+    }
+    for l in [0usize, 1, nb, N * nb - 1, N * nb + 1, 2 * N * nb] {
+        if l != N * nb && E::try_from(&vec![0u8; l][..]).is_ok() {
+            bad("try_from_bytes:length", st);
+        }
+    }
+    // reinterpretation of byte slices refuses ragged lengths and misaligned starts instead of misbehaving
+    let store: Vec<u128> = vec![0; 2 * N + 2];
+    let raw = unsafe { core::slice::from_raw_parts(store.as_ptr() as *const u8, store.len() * 16) };
+    if unsafe { E::bytes_as_elements(&raw[..N * nb + 1]) }.is_ok() {
+        bad("bytes_as_elements:ragged-length-accepted", st);
+    }
+    if unsafe { E::bytes_as_elements(&raw[1..1 + N * nb]) }.is_ok() {
+        bad("bytes_as_elements:misaligned-accepted", st);
+    }
+    match unsafe { E::bytes_as_elements(&raw[..2 * N * nb]) } {
+        Ok(z) if z.len() == 2 && z.iter().all(|e| *e == E::ZERO) => {},
+        _ => bad("bytes_as_elements:aligned-zeros", st),
+    }
+    // Display lists the coefficients' residues
+    let shown = format!("{}", a.e);
+    let want = format!("({})", c.iter().map(|k| k.res().to_string()).collect::<Vec<_>>().join(", "));
+    if shown != want {
+        bad("display", st);
+    }
+    st.evals += 1;
+    st.count(&format!("{nm}.conversion_cases"));
+}
+
+fn drive<B: Fld, E: ExtEl<B, N>, const N: usize>(run: &Run, scale: u64)
+where
+    E: From<u8> + From<u16> + From<u32> + for<'a> TryFrom<&'a [u8]> + winter_utils::Randomizable + std::fmt::Display,
+{
     let nm = name::<B, N>();
     if !E::supported() {
         run.seq(&format!("{nm}-unsupported"), 1, |_, _, st| {
@@ -274,6 +360,7 @@ fn drive<B: Fld, E: ExtEl<B, N>, const N: usize>(run: &Run, scale: u64) {
             let b = operand::<B, E, N>(rng, &bnd);
             bin_check::<B, E, N>(st, a, b, None);
             slices::<B, E, N>(st, rng, &bnd);
+            conversions::<B, E, N>(st, rng, &bnd);
             st.case(wfv::fnv(format!("{nm}miri{i}").as_bytes()), true);
         });
         return;
@@ -321,6 +408,9 @@ fn drive<B: Fld, E: ExtEl<B, N>, const N: usize>(run: &Run, scale: u64) {
         if i % 8 == 0 {
             slices::<B, E, N>(st, rng, &bnd);
         }
+        if i % 4 == 1 {
+            conversions::<B, E, N>(st, rng, &bnd);
+        }
         st.case(wfv::fnv(format!("{nm}{:?}{:?}", a.r, b.r).as_bytes()), true);
         st.count(&format!("{nm}.random_pairs"));
         st.sample(&nm, || J::obj(vec![("ext", J::s(&nm)), ("a", show(a.r)), ("b", show(b.r)), ("a_internal", show(a.e.coeffs().map(|c| c.raw())))]));
@@ -329,7 +419,7 @@ fn drive<B: Fld, E: ExtEl<B, N>, const N: usize>(run: &Run, scale: u64) {
 
 fn main() {
     let run = Run::start("C08");
-    let n = run.size(60_000, 6_000_000);
+    let n = run.size(150_000, 6_000_000);
     drive::<f64::BaseElement, QuadExtension<f64::BaseElement>, 2>(&run, n);
     drive::<f64::BaseElement, CubeExtension<f64::BaseElement>, 3>(&run, n);
     drive::<f62::BaseElement, QuadExtension<f62::BaseElement>, 2>(&run, n);
@@ -342,9 +432,10 @@ fn main() {
         require.push((format!("{e}.random_pairs"), 1000));
         require.push((format!("{e}.nonzero_inverses"), 100));
         require.push((format!("{e}.slice_cases"), 100));
+        require.push((format!("{e}.conversion_cases"), 100));
     }
     run.finish(Finish {
-        rule: "operands: each coefficient position takes every boundary element of the base field (boundary integers as residues and as internal images) against every (position, boundary) of the other operand, remaining coefficients random/boundary; plus random pairs. Per pair: add/sub/mul/div (+assign forms) vs schoolbook product reduced by the documented irreducible; per operand: neg,double,square,cube,mul_base,from(base),inv,conjugate(=x^p),exp, byte round trip, slice reinterpretation; laws: conj multiplicative/additive/fixes exactly the base field/order N, a*inv(a)=1, embedding homomorphism. distinct = distinct operand pair (by residues)".into(),
+        rule: "operands: each coefficient position takes every boundary element of the base field (boundary integers as residues and as internal images) against every (position, boundary) of the other operand, remaining coefficients random/boundary; plus random pairs. Per pair: add/sub/mul/div (+assign forms) vs schoolbook product reduced by the documented irreducible; per operand: neg,double,square,cube,mul_base,from(base),inv,conjugate(=x^p),exp, byte round trip, slice reinterpretation, conversions (base_element, integer embeddings, canonical encodings accepted exactly when every coefficient is below the modulus, wrong lengths, ragged / misaligned byte slices refused, Display); laws: conj multiplicative/additive/fixes exactly the base field/order N, a*inv(a)=1, embedding homomorphism. distinct = distinct operand pair (by residues)".into(),
         assumptions: vec![
             "reference: schoolbook polynomial arithmetic over the u128 reference field; Frobenius as x^p; inverse via the norm".into(),
             "irreducibles as documented: f64 x^2-x+2, x^3-x-1; f62 x^2-x-1, x^3+2x+2; f128 x^2-x-1".into(),
